@@ -218,7 +218,7 @@ def real_ray_pair(ctx, net):
 
 def run(ctx):
     rng = ctx.pyrng("c10")
-    n = ctx.scale(64, 1200)
+    n = ctx.scale(64, 8000)
     for i in range(n):
         if ctx.time_left() < 15:
             break
